@@ -357,4 +357,5 @@ func checkC14(c *Ctx) {
 			r.Check(ok, "C14.update-between-keymaps", fnReadline+":UpdateInserted", p.IPos(locals[0]), "UpdateInserted precedes MatchMain", "MatchMain can run without UpdateInserted: a main-keymap command edits the line while a candidate is still virtually inserted")
 		}
 	}
+	checkC14UniqueAccept(c)
 }
